@@ -980,7 +980,7 @@ pub fn invalid_reason(world: &World) -> Option<String> {
                 if l == 0 || l > r.lines.len() {
                     return Some("insert line out of range".into());
                 }
-                let is_tag = |n: usize| r.blocks.iter().any(|b| b.start_line == n || b.end_line == n);
+                let is_tag = |n: usize| r.blocks.iter().any(|b| b.is_start_tag_line(n) || b.end_line == n);
                 if let LineEdit::Replaced { old } | LineEdit::Removed { old } = edit {
                     if r.lines.iter().any(|x| x == old) || old.contains('\n') || !olds.insert(old.clone()) {
                         // git would have more than one way to write the diff
@@ -990,7 +990,7 @@ pub fn invalid_reason(world: &World) -> Option<String> {
                 if let LineEdit::Removed { .. } = edit {
                     // reported in front of rendered line l: a content line or the end tag of the
                     // block the removed line was in, never a start tag
-                    if r.blocks.iter().any(|b| b.start_line == l) {
+                    if r.blocks.iter().any(|b| b.is_start_tag_line(l)) {
                         return Some("removed line in front of a start tag".into());
                     }
                     if !r.blocks.iter().any(|b| b.start_line < l && l <= b.end_line) {
